@@ -83,7 +83,7 @@ class Suite:
     implementation's observations, and a rule counting non-trivial cases."""
 
     def __init__(self, name, domain, ops, monitor=None, stats=None, resets=("new",), args=(), compare=True,
-                 exhaustive=False, retry_args=None, binary=None, env=None):
+                 exhaustive=False, retry_args=None, binary=None, env=None, canon=None):
         self.name, self.domain, self.ops = name, domain, ops
         self.monitor, self.stats = monitor, stats or {}
         self.resets, self.args = resets, list(args)
@@ -94,6 +94,8 @@ class Suite:
         self.retry_args = retry_args
         self.binary = binary      # another build of the harness (e.g. with -race)
         self.env = env or {}
+        # canonicaliser applied to BOTH answers before they are compared (what the implementation leaves open)
+        self.canon = canon or (lambda line: line)
 
     def session_of(self, idx):
         start = idx
@@ -403,7 +405,7 @@ class Check:
             if suite.monitor:
                 suspects.update(i for i, _, _ in suite.monitor(suite.ops, impl))
             if model is not None:
-                suspects.update(i for i in range(len(suite.ops)) if impl[i] != model[i])
+                suspects.update(i for i in range(len(suite.ops)) if suite.canon(impl[i]) != suite.canon(model[i]))
             sessions = sorted({suite.session_of(i) for i in suspects})
             rec["retried_sessions"] = len(sessions)
             for (s0, e0) in sessions[:3]:
@@ -426,7 +428,7 @@ class Check:
                 ob.detail = "model driver unavailable (lake build failed)"
             else:
                 if model is not None:
-                    diffs = [i for i in range(len(suite.ops)) if impl[i] != model[i]]
+                    diffs = [i for i in range(len(suite.ops)) if suite.canon(impl[i]) != suite.canon(model[i])]
                     rec["disagreements"] = len(diffs)
                     if diffs and ob.ok is None:
                         ob.ok = False
